@@ -31,6 +31,7 @@ TRUSTED = [
 ]
 ASSUMPTIONS = [
     'key columns compared with each other are both numeric (int8..int64, float64) or both unicode strings; number-vs-string joins are outside the modelled domain',
+    'float32 and unsigned integer key columns are outside the model: they are checked against the oracle only (stream other-dtypes)',
     'no NaN keys; integer keys below 2^53 in magnitude when they meet a float column; no embedded NUL characters in string keys',
     'every dataset has at least one element; key tuples have at least one component',
     'a JoinLink equal to one already registered is not added again; only links that were added are removed',
